@@ -1,5 +1,8 @@
 //! Library for executing Brainfuck programs.
 
+// `hpbf_verif` guards verification hooks that are off in every normal build.
+#![allow(unexpected_cfgs)]
+
 mod hasher;
 mod smallvec;
 
